@@ -163,6 +163,44 @@ def run_relayout(rng):
     return rec
 
 
+def run_direct(rng):
+    """Direct calls of labella.removeOverlap.removeOverlap(nodes, options) with PARTIAL option dicts, several in a row in one
+    process: each call must honour the documented defaults (nodeSpacing 3, minPos 0, no maxPos) for the keys it does not pass."""
+    from labella import removeOverlap as ro
+    recs = []
+    for _ in range(rng.randint(2, 4)):
+        n = rng.randint(1, 12)
+        labels = [(half(rng, -30, 120), rng.choice([1, 2, 3.5, 10, 20.5])) for _ in range(n)]
+        nodes = [Node(_num(a), _num(w), {"id": i + 1}) for i, (a, w) in enumerate(labels)]
+        partial = {}
+        if rng.random() < 0.5:
+            partial["minPos"] = rng.choice([None, -10, 5.5])
+        if rng.random() < 0.5:
+            partial["maxPos"] = rng.choice([None, 100, 60.5, 250])
+        if rng.random() < 0.4:
+            partial["nodeSpacing"] = rng.choice([0, 1, 5])
+        lst = list(nodes)
+        ro.removeOverlap(lst, dict(partial) if partial or rng.random() < 0.5 else None)
+        eff = {"nodeSpacing": 3, "minPos": 0, "maxPos": None}
+        eff.update(partial)
+        items = []
+        for i, nd in enumerate(nodes):
+            items.append({"k": "L", "id": i + 1, "t": q(nd.idealPos, 4, True), "w": q(nd.width, 4, True), "p": q(nd.currentPos, 4, True),
+                          "li": 0, "ideal": q(nd.idealPos, 4, True), "dataok": 1, "parentlayer": 0, "childlayer": 0})
+        order = {id(nd): j for j, nd in enumerate(lst)}
+        items.sort(key=lambda it: order[id(nodes[it["id"] - 1])])
+        items.sort(key=lambda it: it["t"])
+        recs.append({"U": 4, "lattice": 1, "order": 1, "fresh": 0,
+                     "opts": {"ns": q(eff["nodeSpacing"], 4, True), "hasMin": 0 if eff["minPos"] is None else 1,
+                              "minPos": 0 if eff["minPos"] is None else q(eff["minPos"], 4, True),
+                              "hasMax": 0 if eff["maxPos"] is None else 1,
+                              "maxPos": 0 if eff["maxPos"] is None else q(eff["maxPos"], 4, True),
+                              "densN": 1, "densD": 1, "stubW": 4, "alg": "none"},
+                     "labels": [{"id": i + 1, "ideal": q(a, 4, True), "w": q(w, 4, True)} for i, (a, w) in enumerate(labels)],
+                     "layers": [items], "chainlen": [0] * n, "hasrep": 0, "rep": [], "foreign": 0})
+    return recs
+
+
 def _num(v):
     # keep ints as ints and halves as floats, as a caller would pass them
     f = Fraction(v)
@@ -328,6 +366,9 @@ def main():
     elif mode == "instances":
         for inst in job["instances"]:
             recs.append(run_instance(inst, inst.get("U", 4), inst.get("lattice", True)))
+    elif mode == "direct":
+        while len(recs) < job["count"]:
+            recs += run_direct(rng)
     else:
         while len(recs) < job["count"]:
             if mode == "float":
